@@ -31,7 +31,7 @@ func init() {
 		ID:     "C15",
 		Word32: true,
 		Level:  "model_checking",
-		Rule: "E2 explicit-state breadth-first search over real TailBitmap objects. Starts (all built with real calls): empty at offset 0/64/640/2^33; three words filled except H holes in forward, backward and interleaved fill order (offset 0 and 64); two starts that cross the real 1024-word reclaim threshold (1023 full words then holes; words 1..1025 full with the holes in word 0, so one Set compacts >1024 words). " +
+		Rule: "E2 explicit-state breadth-first search over real TailBitmap objects. Starts (all built with real calls): empty at offset 0/64/640/2^33; three words filled except H holes in forward, backward and interleaved fill order (offset 0 and 64); two starts that cross the real 1024-word reclaim threshold (1023 full words then holes; words 1..1025 full with the holes in word 0, so one Set compacts >1024 words), and five more in which a bit was set FAR AHEAD first (at word 2046, 2047, 2048, 2049, 4000), so that the tail surviving the compaction across the threshold is 1023, 1024, 1025, 1026 and ~3000 words long. " +
 			"Alphabet per state: Set(every hole), Set below Offset (0, Offset-1, Offset-64), Set beyond the end (end+1, end+129, while the bitmap has grown < 130 bits), Set of an already-set bit, Compact. Successors are produced by cloning the object and calling the real method; the state key is every field the implementation can read (Offset, Words, and all unexported fields through reflect). " +
 			"After EVERY transition (before deduplication): Get/Get1 on the whole window [Offset-130, end) ∪ {0, o-1} against the model (when more than 1024 bits are stored: every bit within 66 of Offset, the end, every hole, every position ever set and the operation's index, plus the first and last bit of every stored word), Offset ≡ 0 mod 64 and monotone, no 0 bit skipped, first stored word ≠ all-ones after Set, highest index ever set < end, Compact changes no Get. Every discovered state is additionally re-reached by replaying its shortest path on a freshly built object (differential: cloned chain vs fresh replay), and every eighth state (and every state of depth ≤3) once more with a second, unrelated TailBitmap operated between the steps (objects must not share state). Non-trivial transitions: those that change the state.",
 		Assumptions: []string{
@@ -194,6 +194,21 @@ func c15Starts(thorough bool) []c15Start {
 		fill = append(fill, c15FillExcept(0, 1026, 2, hs, "forward")...)
 		out = append(out, c15MkStart("threshold/holes-in-word0-under-1025-full-words", 0, fill, holes))
 	}
+	// threshold C: as A, but with one bit set FAR AHEAD first, so that the tail that survives the
+	// compaction across the reclaim threshold is exactly 1024 words, one more, and much longer
+	for _, farWord := range []int64{1023 + 1023, 1023 + 1024, 1023 + 1025, 1023 + 1026, 4000} {
+		hs := map[int64]bool{}
+		var holes []int64
+		for _, r := range []int64{0, 1, 63, 64, 127} {
+			j := int64(1023)*64 + r
+			hs[j] = true
+			holes = append(holes, j)
+		}
+		fill := []int64{farWord*64 + 5}
+		fill = append(fill, c15FillExcept(0, 0, 1023, nil, "forward")...)
+		fill = append(fill, c15FillExcept(0, 1023, 2, hs, "forward")...)
+		out = append(out, c15MkStart(fmt.Sprintf("threshold/far-bit-at-word-%d-then-1023-full-then-holes", farWord), 0, fill, holes))
+	}
 	return out
 }
 
@@ -348,6 +363,7 @@ func c15Invariant(prev, cur *bitmap.TailBitmap, m *c15Model, op c15Op, holes []i
 		centres = append(centres, cur.Offset, end, prev.Offset, op.Idx)
 		centres = append(centres, holes...)
 		centres = append(centres, m.added...)
+		centres = append(centres, m.maxSet) // a bit set far ahead of the contiguous prefix
 		for _, x := range centres {
 			for j := x - 66; j <= x+66; j++ {
 				if j >= lo {
